@@ -20,16 +20,17 @@ type gobj struct {
 
 // SeqCfg configures one sequential run.
 type SeqCfg struct {
-	Seed     int
-	Steps    int
-	DiskSz   uint64
-	Unstable bool
-	Profile  string          // mix | data | names | dirs | stale | limits | recycle | full
-	Avoid    map[string]bool // generator filters for known findings
-	DumpEach int             // dump every n steps (0 = only at restarts/end)
-	Restarts bool
-	Snap     func(s *Srv, t *Trace, tag string) // optional structural snapshot hook
-	SnapEach int
+	Seed      int
+	Steps     int
+	DiskSz    uint64
+	Unstable  bool
+	Profile   string          // mix | data | names | dirs | stale | limits | recycle | full
+	Avoid     map[string]bool // generator filters for known findings
+	DumpEach  int             // dump every n steps (0 = only at restarts/end)
+	Restarts  bool
+	Snap      func(s *Srv, t *Trace, tag string) // optional structural snapshot hook
+	SnapEach  int
+	DeleteAll bool // finish by deleting everything and comparing the free counts with those after mkfs
 }
 
 type seqGen struct {
@@ -45,6 +46,8 @@ type seqGen struct {
 	wtmax int
 	maxfs int
 	nmax  int
+	fb0   int
+	fi0   int
 	enumC map[string][]int // cookies returned per dir fh
 	ext   Extents
 }
@@ -125,6 +128,16 @@ var baseNames = []string{"a", "b", "c", "d", "e", "f", "g", "x1", "x2", "file-wi
 
 func (g *seqGen) name() string {
 	p := g.r.Intn(100)
+	if g.cfg.Profile == "many" && p < 75 {
+		return fmt.Sprintf("m%d", g.r.Intn(400))
+	}
+	if g.cfg.Profile == "longnames" && p < 85 {
+		n := []int{100, 105, 111, 112, 112}[g.r.Intn(5)]
+		if g.cfg.Avoid["name-at-max"] && n >= g.nmax {
+			n = g.nmax - 1
+		}
+		return fmt.Sprintf("L%03d", g.r.Intn(150)) + strings.Repeat("x", n-4)
+	}
 	switch {
 	case p < 70:
 		return baseNames[g.r.Intn(len(baseNames))]
@@ -193,6 +206,9 @@ func (g *seqGen) offset(big bool) (int, bool, uint64) {
 
 func (g *seqGen) count() int {
 	const B = 4096
+	if g.cfg.Profile == "full" && g.r.Intn(2) == 0 {
+		return []int{40 * B, 100 * B, 300 * B, 64*B + 1, 200*B - 7}[g.r.Intn(5)]
+	}
 	c := []int{0, 1, 7, 100, B - 1, B, B + 1, 2 * B, 3*B + 11, 8 * B, 9*B + 1, 16 * B, 40 * B}
 	if g.r.Intn(3) == 0 {
 		return g.r.Intn(2 * B)
@@ -270,8 +286,14 @@ func (g *seqGen) limits() {
 }
 
 func (g *seqGen) dump(who string) {
-	d := DumpAPIx(g.s.API, who, g.ext)
-	g.t.Emit(d)
+	g.t.Emit(g.mkDump(g.s, who))
+}
+
+func (g *seqGen) mkDump(srv *Srv, who string) *Dump {
+	DumpTolerantShort = func() bool { fb, _ := srv.Free(); return fb < 64 }
+	d := DumpAPIx(srv.API, who, g.ext)
+	DumpTolerantShort = nil
+	return d
 }
 
 // step issues one (sometimes a few) RPCs.
@@ -290,6 +312,15 @@ func (g *seqGen) step() {
 		w["ENUM"], w["READDIR"], w["READDIRPLUS"] = 6, 5, 5
 	case "stale":
 		w["CREATE"], w["REMOVE"], w["RMDIR"], w["RENAME"] = 14, 14, 6, 10
+	case "longnames":
+		w["CREATE"], w["MKDIR"], w["SYMLINK"], w["REMOVE"], w["RENAME"], w["LOOKUP"] = 40, 2, 3, 6, 8, 14
+		w["WRITE"], w["READ"], w["SETATTR"] = 3, 2, 1
+	case "many":
+		w["CREATE"], w["MKDIR"], w["SYMLINK"], w["REMOVE"], w["RENAME"], w["LOOKUP"] = 40, 4, 4, 8, 8, 10
+		w["WRITE"], w["READ"], w["SETATTR"] = 4, 3, 1
+	case "full":
+		w["WRITE"], w["CREATE"], w["MKDIR"], w["SYMLINK"], w["RENAME"], w["SETATTR"] = 30, 14, 8, 6, 10, 4
+		w["REMOVE"], w["RMDIR"], w["READ"] = 3, 1, 8
 	}
 	total := 0
 	keys := []string{"GETATTR", "SETATTR", "LOOKUP", "ACCESS", "READLINK", "READ", "WRITE", "CREATE", "MKDIR", "SYMLINK",
@@ -576,6 +607,7 @@ func RunSeq(cfg SeqCfg, t *Trace, seg int) error {
 	g := &seqGen{cfg: cfg, r: rand.New(rand.NewSource(int64(cfg.Seed))), s: s, t: t, enumC: map[string][]int{}, ext: Extents{}}
 	g.root = &gobj{fh: RootFh(), kind: 2, alive: true}
 	t.Emit(Reset{Ev: "reset", Seg: seg, Driver: "seq/" + cfg.Profile, Seed: cfg.Seed, DiskSz: int(cfg.DiskSz), Unstable: cfg.Unstable, Root: g.root.fh})
+	g.fb0, g.fi0 = s.Free()
 	g.limits()
 	s.Sequential = true
 	for n := 0; n < cfg.Steps; n++ {
@@ -599,13 +631,83 @@ func RunSeq(cfg SeqCfg, t *Trace, seg int) error {
 	g.dump("run")
 	if cfg.Restarts {
 		g.restart()
+		if g.s == nil {
+			return nil
+		}
 	}
 	g.s.WaitIdle()
 	if cfg.Snap != nil {
 		cfg.Snap(g.s, t, "run")
 	}
-	g.s.Shutdown()
+	if cfg.DeleteAll {
+		g.deleteAll(g.root.fh, 0)
+		if !g.s.Wedged {
+			g.s.WaitIdle()
+			g.dump("run")
+			if cfg.Snap != nil {
+				cfg.Snap(g.s, t, "run")
+			}
+			fb, fi := g.s.Free()
+			rootblocks := 0
+			for _, in := range TakeSnap(g.s, "run", false).Inodes {
+				if in.Inum == 1 {
+					rootblocks = len(in.Data) + len(in.Ind)
+				}
+			}
+			// directories never shrink: the root keeps the blocks it grew to
+			t.Emit(map[string]interface{}{"ev": "freecheck", "freeb0": g.fb0, "freei0": g.fi0, "freeb": fb, "freei": fi, "rootblocks": rootblocks})
+		}
+	}
+	if !g.s.Wedged {
+		g.s.Shutdown()
+	}
 	return nil
+}
+
+// deleteAll removes everything below directory fh through the API.
+func (g *seqGen) deleteAll(fh string, depth int) {
+	if depth > 40 || g.s.Wedged {
+		return
+	}
+	cookie := 0
+	type ent struct {
+		name string
+		fh   string
+		dir  bool
+	}
+	var ents []ent
+	for page := 0; page < 10000; page++ {
+		c := NewCall("READDIRPLUS")
+		c.Fh, c.Cookie, c.DirCount, c.MaxCount = fh, cookie, 1<<16, 1<<17
+		g.emit(c)
+		if c.St != "OK" {
+			return
+		}
+		for _, e := range c.Ents {
+			cookie = e.Cookie
+			if e.Name != "." && e.Name != ".." {
+				ents = append(ents, ent{e.Name, e.Fh, e.Type == 2})
+			}
+		}
+		if c.REof || len(c.Ents) == 0 {
+			break
+		}
+	}
+	for _, e := range ents {
+		var c *Call
+		if e.dir {
+			g.deleteAll(e.fh, depth+1)
+			c = NewCall("RMDIR")
+		} else {
+			c = NewCall("REMOVE")
+		}
+		c.Fh, c.Name, c.NLen = fh, e.name, len(e.name)
+		g.emit(c)
+		g.learn(c)
+		if g.s.Wedged {
+			return
+		}
+	}
 }
 
 func (g *seqGen) restart() {
@@ -620,5 +722,5 @@ func (g *seqGen) restart() {
 	}
 	g.s = s
 	s.Sequential = true
-	g.t.Emit(Restart{Ev: "restart", Kind: "clean", Dump: DumpAPIx(s.API, "restarted", g.ext)})
+	g.t.Emit(Restart{Ev: "restart", Kind: "clean", Dump: g.mkDump(s, "restarted")})
 }
